@@ -117,9 +117,31 @@ def run_program(ls, rng, fc, mask, nzcv):
                 r.sctlr.a = 1
                 r.set(6, 0x1002)
             kinds.append(exc)
-        elif i == n - 1 and rng.random() < 0.3:
-            body += (0xE000 | 0x004).to_bytes(2, 'little')   # B .+12
-            kinds.append('b')
+        elif i == n - 1 and rng.random() < 0.45:
+            # a branch as the last instruction of the block: B, or an interworking branch to ARM or Thumb code
+            bk = rng.choice(['b', 'b', 'bx', 'bx', 'blx', 'pop', 'ldrpc', 'movpc'])
+            if bk == 'ldrpc' and exc == 'abort':
+                bk = 'bx'
+            to_arm = rng.random() < 0.5
+            target = (code + 0x100) if to_arm else ((code + 0x80) | 1)
+            if bk == 'b':
+                body += (0xE000 | 0x004).to_bytes(2, 'little')   # B .+12
+            elif bk == 'bx':
+                body += (0x4738).to_bytes(2, 'little')           # BX r7
+            elif bk == 'blx':
+                body += (0x47B8).to_bytes(2, 'little')           # BLX r7
+            elif bk == 'movpc':
+                body += (0x46BF).to_bytes(2, 'little')           # MOV pc, r7
+            elif bk == 'pop':
+                body += (0xBD00).to_bytes(2, 'little')           # POP {pc}
+                M.poke(cpu, 0x7000, target.to_bytes(4, 'little'))
+            else:
+                body += (0xF8D6).to_bytes(2, 'little') + (0xF000).to_bytes(2, 'little')   # LDR.W pc, [r6]
+                M.poke(cpu, 0x1000, target.to_bytes(4, 'little'))
+            r.set(7, target)
+            M.poke(cpu, code + 0x100, (0xE1A00000).to_bytes(4, 'little') * 8)      # ARM NOPs
+            M.poke(cpu, code + 0x80, b'\x00\xbf' * 16)                            # Thumb NOPs
+            kinds.append(bk + ('>arm' if to_arm and bk != 'b' else ''))
         else:
             k = rng.choice(['a16', 'a16', 'a32', 'ld'])
             if k == 'a16':
@@ -165,6 +187,9 @@ def run_program(ls, rng, fc, mask, nzcv):
                                                              '%#x' % g if isinstance(g, int) else str(g)) for l, e, g in diffs[:5]]), d2)
             break
         pc = post['PC']
+        if kinds[-1] not in ('a16', 'a32', 'ld', 'b', 'svc', 'udf', 'abort') and pc >= code + 0x80 and stepno >= n:
+            ls.bump('programs_ending_in_interworking_branch')
+            break
         if pc >= code + 2 + len(body) - 8 and (post['cpsr'] & 0x1F) == (desc_mode(desc)):
             break
     else:
